@@ -296,7 +296,7 @@ func (w *world) event(rng *rand.Rand) (rec, error) {
 
 // genEvent draws one event: its description for the reference and the call that performs it.
 func (w *world) genEvent(rng *rand.Rand) (rec, func(r res.Resource)) {
-	e := rec{"ev": "", "vals": [][]string{}, "v": "", "idx": 0, "data": rec{"t": "missing"}, "pub": false, "old": [][]string{}, "hasdata": false, "deleted": rec{"t": "missing"}}
+	e := rec{"ev": "", "vals": [][]string{}, "v": "", "idx": 0, "data": rec{"t": "missing"}, "pub": false, "old": [][]string{}, "hasdata": false, "datajudged": false, "deleted": rec{"t": "missing"}}
 	var do func(r res.Resource)
 	if w.cfg.typ == "model" {
 		switch rng.Intn(6) {
@@ -312,6 +312,11 @@ func (w *world) genEvent(rng *rand.Rand) (rec, func(r res.Resource)) {
 			e["ev"] = "change"
 			ch := map[string]interface{}{}
 			n := 1 + rng.Intn(2)
+			if rng.Intn(5) == 0 {
+				// a change that takes the model back to exactly what the default is (when there is one)
+				ch = map[string]interface{}{"a": float64(1), "b": res.DeleteAction, "c": res.DeleteAction}
+				n = 0
+			}
 			for i := 0; i < n; i++ {
 				k := []string{"a", "b", "c"}[rng.Intn(3)]
 				if rng.Intn(4) == 0 {
@@ -389,6 +394,7 @@ func (w *world) perform(e rec, do func(r res.Resource)) (rec, error) {
 			e["ev2"] = m.Subject
 		}
 	}
+	e["datajudged"] = !w.cfg.typed
 	w.lmu.Lock()
 	if w.lastEv != nil {
 		if w.lastEv.Name == "change" {
@@ -452,7 +458,15 @@ func history(cfg lcfg, seed int64, n int) (rec, error) {
 		last = w.defAbs
 	}
 	for i := 0; i < n; i++ {
-		e, err := w.event(rng)
+		var e rec
+		var err error
+		if k := len(evs); k > 0 && evs[k-1]["ev"] == "change" && len(evs[k-1]["vals"].([][]string)) == 3 && rng.Intn(2) == 0 {
+			// the resource was just taken back to its default content: delete it now
+			d := rec{"ev": "delete", "vals": [][]string{}, "v": "", "idx": 0, "data": rec{"t": "missing"}, "pub": false, "old": [][]string{}, "hasdata": false, "datajudged": false, "deleted": rec{"t": "missing"}}
+			e, err = w.perform(d, func(r res.Resource) { r.DeleteEvent() })
+		} else {
+			e, err = w.event(rng)
+		}
 		if err != nil {
 			w.shut()
 			return nil, err
